@@ -52,14 +52,26 @@ def replay_table_pp(model, n=4, descending=False, series=False):
     if series:
         # the three columns of a table (pandas Series with the default labels), as df["pressure"], df["viscosity"], df["z-factor"]
         import pandas as pd
+        cols = (pd.Series(p.copy()), pd.Series(mu.copy()), pd.Series(z.copy()))
         try:
-            got = np.asarray(rf.pseudopressure(pd.Series(p), pd.Series(mu), pd.Series(z)), float)
+            got = np.asarray(rf.pseudopressure(*cols), float)
+            again = np.asarray(rf.pseudopressure(*cols), float)
         except Exception as ex:  # noqa: BLE001
             return True, {"what": f"fluids.pseudopressure raised {ex!r} for columns passed as pandas Series", "inputs": m}
+        if any(not np.array_equal(np.asarray(a, float), b) for a, b in zip(cols, (p, mu, z))) or not np.array_equal(got, again):
+            return True, {"what": f"fluids.pseudopressure changed the Series it was given: viscosity {mu.tolist()} -> {cols[1].tolist()}, Z {z.tolist()} -> {cols[2].tolist()}; "
+                                  f"first call {got.tolist()}, second call on the same Series {again.tolist()}", "inputs": m}
         if got.shape != p.shape or not np.all(np.isfinite(got)):
             return True, {"what": f"fluids.pseudopressure on pandas Series columns = {got.tolist()} for {len(p)} rows", "inputs": m}
     else:
+        keep = (p.copy(), mu.copy(), z.copy())
         got = np.asarray(rf.pseudopressure(p, mu, z), float)
+        # the caller's columns are inputs: a second transform of the same arrays (or of the two halves of the table, which are
+        # views of them) is the same function of the same table
+        again = np.asarray(rf.pseudopressure(p, mu, z), float)
+        if any(not np.array_equal(a, b) for a, b in zip(keep, (p, mu, z))) or not np.array_equal(got, again):
+            return True, {"what": f"fluids.pseudopressure changed its inputs: viscosity {keep[1].tolist()} -> {mu.tolist()}, Z {keep[2].tolist()} -> {z.tolist()}, "
+                                  f"pressure {keep[0].tolist()} -> {p.tolist()}; first call {got.tolist()}, second call on the same arrays {again.tolist()}", "inputs": m}
     y = 2 * p / (mu * z)
     want = np.concatenate([[0.0], np.cumsum(np.diff(p) * (y[:-1] + y[1:]) / 2)])
     order = np.argsort(p)
@@ -206,7 +218,15 @@ def job_transform(job, n, descending=False, series=False):
             return SymSeries(list(vals), "f8", list(range(n)))      # a table column: default labels 0..n-1
         return SymArray(vals)
     stag = ",columns passed as pandas Series" if series else ""
-    for k, pr in enumerate(paths(job, lambda: mod.pseudopressure(mk(ps), mk(mus), mk(zs)), dom, catch=(Exception,))):
+    box_ = {}
+
+    def run():
+        box_["c"] = c = (mk(ps), mk(mus), mk(zs))
+        first = mod.pseudopressure(*c)
+        box_["after"] = [list(a.d) for a in c]
+        box_["again"] = mod.pseudopressure(*c)
+        return first
+    for k, pr in enumerate(paths(job, run, dom, catch=(Exception,))):
         if pr.exc is not None:
             job.prove(f"transform[{n}{stag}]/raises {type(pr.exc).__name__}[path{k}]", pr.pc, bound=f"{n} rows", replay=rp, note=repr(pr.exc)[:100])
             continue
@@ -228,6 +248,15 @@ def job_transform(job, n, descending=False, series=False):
         job.prove(f"transform[{n}{',rows listed high to low' if descending else ''}]/increment k depends only on rows k, k+1",
                   pr.pc + [T.b_or(*[not_close(got[j + 1] - got[j], (ps[j + 1] - ps[j]) * (y[j] + y[j + 1]) / 2, abs_tol=Fraction(0))
                                     for j in range(n - 1)])], bound=f"{n} rows", replay=rp)
+        # the columns are inputs: unchanged by the call, and a second transform of the same containers gives the same rows
+        changed = [not_close(a, b, abs_tol=Fraction(0)) for col, orig in zip(box_["after"], (ps, mus, zs)) for a, b in zip(col, orig)]
+        ag = box_["again"]
+        if not isinstance(ag, SymArray) or len(ag.d) != n:
+            job.prove(f"transform[{n}{stag}]/second call on the same columns returns one value per row[path{k}]", pr.pc, bound=f"{n} rows", replay=rp)
+        else:
+            changed += [not_close(a, b, abs_tol=Fraction(0)) for a, b in zip(ag.d, got)]
+            job.prove(f"transform[{n}{stag}{',rows listed high to low' if descending else ''}]/columns unchanged by the call; a second call on them returns the same rows[path{k}]",
+                      pr.pc + [T.b_or(*changed)], bound=f"{n} rows, two calls", replay=rp)
         job.prove(f"transform[{n}{',rows listed high to low' if descending else ''}]/reach", pr.pc, expect="sat")
 
 
@@ -318,7 +347,7 @@ def job_builder(job, pmax, int_pmax=False):
             df = pr.value
             p, mu, z, pp = df["pressure"].d, df["viscosity"].d, df["z-factor"].d, df["pseudopressure"].d
             n = len(p)
-            alt = mod.pseudopressure(df["pressure"], df["viscosity"], df["z-factor"]).d
+            alt = mod.pseudopressure(SymArray(list(p)), SymArray(list(mu)), SymArray(list(z))).d
             job.prove(f"builder[{dtag}]/table route == stand-alone transform[path{k}]",
                       pr.pc + [T.b_or(*[not_close(a, b, abs_tol=Fraction(0)) for a, b in zip(pp, alt)])], bound=f"{n} rows",
                       replay=(replay_builder, {"dry": dry, "pmax": pmax}))
